@@ -168,6 +168,38 @@ func VH_udp() {
 	}
 }
 
+// VH_partial: a datagram larger than the reader's buffer is returned by
+// successive reads exactly once, in order; then the next datagram follows.
+func VH_partial() {
+	closeCh := make(chan string, 10)
+	pc := layer4.VerifNewPacketConn(&scriptPC{shutdown: make(chan struct{})}, addrs[0], closeCh)
+	d1 := vapi.Bytes("d1", 12)
+	d2 := vapi.Bytes("d2", 4)
+	vapi.Assume(len(d1) > 0 && len(d2) > 0)
+	layer4.VerifPacketConnFeed(pc, d1)
+	layer4.VerifPacketConnFeed(pc, d2)
+	_ = pc.SetReadDeadline(time.Now().Add(time.Second))
+	k := vapi.Int("bufsize", 1, 12)
+	pos := 0
+	for r := 0; r < 12 && pos < len(d1); r++ {
+		p := make([]byte, k)
+		n, err := pc.Read(p)
+		vapi.Assert(err == nil, "a read inside a datagram failed")
+		vapi.Assert(n == vapi.Min(k, len(d1)-pos), "partial read returned the wrong number of bytes")
+		vapi.AssertBytesEqual(p[:n], d1[pos:pos+n], "partial reads do not return the datagram's bytes in order")
+		pos += n
+	}
+	vapi.Assert(pos == len(d1), "the datagram was not fully returned")
+	if k < len(d1) {
+		vapi.Cover("datagram read in pieces")
+	}
+	p := make([]byte, 16)
+	n, err := pc.Read(p)
+	vapi.Assert(err == nil && n == len(d2), "the next datagram did not follow")
+	vapi.AssertBytesEqual(p[:n], d2, "the next datagram was altered")
+	vapi.Cover("next datagram read")
+}
+
 func bytesEq(a, b []byte) bool {
 	if len(a) != len(b) {
 		return false
@@ -181,4 +213,5 @@ func bytesEq(a, b []byte) bool {
 
 func init() {
 	vapi.Register("c09.VH_udp", VH_udp)
+	vapi.Register("c09.VH_partial", VH_partial)
 }
